@@ -402,13 +402,23 @@ impl<'a> ProgGen<'a> {
                 self.emit(out, format!("{} = 0", c));
                 let top = self.rng.chance(1, 2);
                 let until = self.rng.chance(1, 2);
-                let cond = if until { format!("UNTIL {} >= {}", c, n) } else { format!("WHILE {} < {}", c, n) };
+                // a quarter of the UNTIL loops test a plain number (true = not zero), not a comparison
+                let value_cond = until && self.rng.chance(1, 4);
+                let cond = if value_cond {
+                    self.feat("until-value");
+                    format!("UNTIL {}", c)
+                } else if until {
+                    format!("UNTIL {} >= {}", c, n)
+                } else {
+                    format!("WHILE {} < {}", c, n)
+                };
                 if top {
                     self.emit(out, format!("DO {}", cond));
                 } else {
                     self.emit(out, "DO".into());
                 }
-                self.emit(out, format!("  {} = {} + 1", c, c));
+                let inc = if value_cond { *self.rng.pick(&[1, 2, 5]) } else { 1 };
+                self.emit(out, format!("  {} = {} + {}", c, c, inc));
                 self.loop_depth += 1;
                 let b = self.block(depth - 1);
                 self.loop_depth -= 1;
